@@ -3113,8 +3113,17 @@ func generateRandomizedSpec(
 			if r.FlipWeightedCoin(id.Weights.KeyShare_Append_RandomGroups) {
 				ks.KeyShares = append(ks.KeyShares, KeyShare{Group: CurveP256})
 			}
-			if r.FlipWeightedCoin(id.Weights.KeyShare_Append_RandomGroups) {
+			// This coin used to decide on the hybrid share independently of supported_groups. It is
+			// still drawn so that existing seeds consume the same random stream.
+			r.FlipWeightedCoin(id.Weights.KeyShare_Append_RandomGroups)
+		}
+		// The hybrid group is offered in key_share exactly when it is listed in supported_groups: a
+		// share for an unlisted group is invalid, and a listed hybrid group without a share costs a
+		// HelloRetryRequest that no mimicked client would incur.
+		for _, curveID := range curveIDs {
+			if curveID == X25519MLKEM768 {
 				ks.KeyShares = append([]KeyShare{{Group: X25519MLKEM768}}, ks.KeyShares...)
+				break
 			}
 		}
 		pskExchangeModes := PSKKeyExchangeModesExtension{[]uint8{pskModeDHE}}
